@@ -139,8 +139,8 @@ def pubkeys_hash(keys):
     return h.digest()
 
 
-def powhsm_msg(rng, pkhash, platform=b"led", header=b"POWHSM:5.4::"):
-    return header + platform + rb(rng, 32) + pkhash + rb(rng, 32) + rb(rng, 8) + struct.pack(">Q", rng.getrandbits(40))
+def powhsm_msg(rng, pkhash, platform=b"led", header=b"POWHSM:5.4::", ud=None):
+    return header + platform + (rb(rng, 32) if ud is None else ud) + pkhash + rb(rng, 32) + rb(rng, 8) + struct.pack(">Q", rng.getrandbits(40))
 
 
 def mutate_msg(rng, msg, hlen):
